@@ -792,10 +792,41 @@ func (p *Prog) closure(fn *ssa.Function) []Effect {
 // call instruction (Inner keeps the real site). A new helper has no effects of its own in
 // this sense: they belong to whoever calls it.
 func (p *Prog) own(fn *ssa.Function) []Effect {
-	if p.newHelper(fn) {
+	if p.newHelper(fn) && p.attributed()[fn] {
 		return nil
 	}
+	// (a new function that no known function reaches — a new hook, a new exported method
+	// called only from outside — answers for its own effects)
 	return p.ownInner(fn)
+}
+
+var attributedSet map[*ssa.Function]bool
+
+// attributed: the new helpers (and functions handed to them) that some KNOWN function
+// reaches through new helpers only; their effects are reported by own() of that function.
+func (p *Prog) attributed() map[*ssa.Function]bool {
+	if attributedSet != nil {
+		return attributedSet
+	}
+	attributedSet = map[*ssa.Function]bool{}
+	for _, fn := range p.Funcs {
+		top := fn
+		for top.Parent() != nil {
+			top = top.Parent()
+		}
+		if p.newHelper(top) {
+			continue
+		}
+		p.walkCalls(fn, walkVisitor{
+			onlyNew: true,
+			call: func(callee *ssa.Function, site, anchor *ssa.Call, f *ssa.Function) {
+				if p.newHelper(callee) {
+					attributedSet[callee] = true
+				}
+			},
+		})
+	}
+	return attributedSet
 }
 
 // ownInner: own() without the "a new helper owns nothing" convention (for rules that
